@@ -27,6 +27,10 @@ DECLINED = ["graph and slot-order equality after reload for arbitrary link graph
 ASSUMPTIONS = ["C07's per-operation consistency of connect() (the state being saved is consistent)"]
 
 
+def shape_params(fn):
+    return [a.arg for a in fn.args.args if a.arg != "self"]
+
+
 def run(repo: Repo, rep, tier: str):
     codec_rows(repo, rep, "C08")
     rebuild_rules(repo, rep, "C08")
@@ -58,6 +62,12 @@ def codec_rows(repo: Repo, rep, P: str):
         rt = sorted({m.table for m in links.function_muts(r.node) if m.kind in ("extend", "append")})
         if wsrc == [table] and rt == [table]:
             rep.ok(f"{P}.R1", f"{r.rel}:{r.cls}.process_{cid}", f"{cid}: {table}", "same table written and extended")
+        elif not rt and any(isinstance(c_, ast.Call) and any(norm(a_).endswith(f".{table}") or norm(a_) == (shape_params(r.node) or ["data"])[0]
+                                                             for a_ in c_.args) and not norm(c_.func).endswith(("unpack", ".extend", ".append", "len"))
+                            for c_ in ast.walk(r.node)):
+            # the table / the payload is handed to a function that was not read through
+            rep.inconclusive(f"{P}.R1", f"{r.rel}:{r.cls}.process_{cid}", f"{cid}: written from {wsrc}; the reader hands the table to a call that is not read through",
+                             f"where {cid} is stored is not recognised", r.where)
         else:
             rep.violation(f"{P}.R1", f"{r.rel}:{r.cls}.process_{cid}", f"{cid}: written from {wsrc}, read into {rt}",
                           f"{cid} must carry Module.{table} on both sides", r.where)
